@@ -6,7 +6,7 @@ from vlib import *
 res = Result('setup', 'quick', 0)
 import wbsync
 wbsync.sync()
-for name, Name in [('ordered', 'Ordered'), ('rope', 'Rope'), ('unord', 'Unord'), ('derive', 'Derive'), ('wire', 'Wire')]:
+for name, Name in [('ordered', 'Ordered'), ('rope', 'Rope'), ('unord', 'Unord'), ('derive', 'Derive'), ('wire', 'Wire'), ('parse', 'Parse')]:
     build_ocaml(res, name, Name)
 cargo_build(res, os.path.join(V, 'harness', 'bb'), 'bb')
 cargo_build(res, os.path.join(V, 'harness', 'wb'), 'wb')
